@@ -67,14 +67,14 @@ package core
 //@ spec gateCancelled(g Gate, e error) bool = g.(*gateImpl).canceled && g.(*gateImpl).err == e
 //@ spec gateCleared(g Gate) bool = !g.(*gateImpl).canceled && g.(*gateImpl).arrived == 0 && g.(*gateImpl).err == nil
 
+//@ spec initFlowWired(s *initFlowSynchronizationImpl) bool = isGate(s.externalAgentsRegisteredGate) && isGate(s.runtimeReadyGate) && isGate(s.agentReadyGate) && isGate(s.runtimeRestoreReadyGate) && ref(s.externalAgentsRegisteredGate) != ref(s.runtimeReadyGate) && ref(s.externalAgentsRegisteredGate) != ref(s.agentReadyGate) && ref(s.externalAgentsRegisteredGate) != ref(s.runtimeRestoreReadyGate) && ref(s.runtimeReadyGate) != ref(s.agentReadyGate) && ref(s.runtimeReadyGate) != ref(s.runtimeRestoreReadyGate) && ref(s.agentReadyGate) != ref(s.runtimeRestoreReadyGate)
+//@ spec invokeFlowWired(s *invokeFlowSynchronizationImpl) bool = isGate(s.runtimeReadyGate) && isGate(s.runtimeResponseGate) && isGate(s.agentReadyGate) && ref(s.runtimeReadyGate) != ref(s.runtimeResponseGate) && ref(s.runtimeReadyGate) != ref(s.agentReadyGate) && ref(s.runtimeResponseGate) != ref(s.agentReadyGate)
+
 //@ typeinv initFlowSynchronizationImpl s
-//@   inv isGate(s.externalAgentsRegisteredGate) && isGate(s.runtimeReadyGate) && isGate(s.agentReadyGate) && isGate(s.runtimeRestoreReadyGate)
-//@   inv ref(s.externalAgentsRegisteredGate) != ref(s.runtimeReadyGate) && ref(s.externalAgentsRegisteredGate) != ref(s.agentReadyGate) && ref(s.externalAgentsRegisteredGate) != ref(s.runtimeRestoreReadyGate)
-//@   inv ref(s.runtimeReadyGate) != ref(s.agentReadyGate) && ref(s.runtimeReadyGate) != ref(s.runtimeRestoreReadyGate) && ref(s.agentReadyGate) != ref(s.runtimeRestoreReadyGate)
+//@   inv initFlowWired(s)
 
 //@ typeinv invokeFlowSynchronizationImpl s
-//@   inv isGate(s.runtimeReadyGate) && isGate(s.runtimeResponseGate) && isGate(s.agentReadyGate)
-//@   inv ref(s.runtimeReadyGate) != ref(s.runtimeResponseGate) && ref(s.runtimeReadyGate) != ref(s.agentReadyGate) && ref(s.runtimeResponseGate) != ref(s.agentReadyGate)
+//@   inv invokeFlowWired(s)
 
 //@ func NewInitFlowSynchronization
 //@   modifies nothing
@@ -174,3 +174,216 @@ package core
 //@ func (*invokeFlowSynchronizationImpl).SetAgentsReadyCount
 //@   modifies s.agentReadyGate.(*gateImpl).count
 //@   ensures [delegates] setCountSpec(gateOf(s.agentReadyGate), agentCount, r0)
+
+// ---------------------------------------------------------------------------------------------
+// C12: Runtime lifecycle automaton. The Runtime object is a monitor whose lock is its ManagedThread;
+// the ten state objects are created once by NewRuntime and point back to their Runtime.
+// ---------------------------------------------------------------------------------------------
+
+//@ monitor Runtime s
+//@   lock s.ManagedThread
+//@   waitcall SuspendUnsafe
+//@   protects currentState, stateLastModified, responseTime
+//@   invariant [state-is-one-of-ten] rtValid(s)
+
+//@ spec rtValid(s *Runtime) bool = s.currentState == s.RuntimeStartedState || s.currentState == s.RuntimeInitErrorState || s.currentState == s.RuntimeReadyState || s.currentState == s.RuntimeRunningState || s.currentState == s.RuntimeRestoreReadyState || s.currentState == s.RuntimeRestoringState || s.currentState == s.RuntimeInvocationResponseState || s.currentState == s.RuntimeInvocationErrorResponseState || s.currentState == s.RuntimeResponseSentState || s.currentState == s.RuntimeRestoreErrorState
+//@ spec rtWired(s *Runtime) bool = typeis(s.ManagedThread, *ManagedThread) && ref(s.ManagedThread) != 0 && typeis(s.RuntimeStartedState, *RuntimeStartedState) && s.RuntimeStartedState.(*RuntimeStartedState).runtime == s && typeis(s.RuntimeInitErrorState, *RuntimeInitErrorState) && s.RuntimeInitErrorState.(*RuntimeInitErrorState).runtime == s && typeis(s.RuntimeReadyState, *RuntimeReadyState) && s.RuntimeReadyState.(*RuntimeReadyState).runtime == s && typeis(s.RuntimeRunningState, *RuntimeRunningState) && s.RuntimeRunningState.(*RuntimeRunningState).runtime == s && typeis(s.RuntimeRestoreReadyState, *RuntimeRestoreReadyState) && typeis(s.RuntimeRestoringState, *RuntimeRestoringState) && s.RuntimeRestoringState.(*RuntimeRestoringState).runtime == s && typeis(s.RuntimeInvocationResponseState, *RuntimeInvocationResponseState) && s.RuntimeInvocationResponseState.(*RuntimeInvocationResponseState).runtime == s && typeis(s.RuntimeInvocationErrorResponseState, *RuntimeInvocationErrorResponseState) && s.RuntimeInvocationErrorResponseState.(*RuntimeInvocationErrorResponseState).runtime == s && typeis(s.RuntimeResponseSentState, *RuntimeResponseSentState) && s.RuntimeResponseSentState.(*RuntimeResponseSentState).runtime == s && typeis(s.RuntimeRestoreErrorState, *RuntimeRestoreErrorState) && s.RuntimeRestoreErrorState.(*RuntimeRestoreErrorState).runtime == s
+//@ spec rtFlows(s *Runtime) bool = isInitFlow(s.RuntimeStartedState.(*RuntimeStartedState).initFlow) && s.RuntimeRestoringState.(*RuntimeRestoringState).initFlow == s.RuntimeStartedState.(*RuntimeStartedState).initFlow && isInvokeFlow(s.RuntimeRunningState.(*RuntimeRunningState).invokeFlow) && s.RuntimeInvocationResponseState.(*RuntimeInvocationResponseState).invokeFlow == s.RuntimeRunningState.(*RuntimeRunningState).invokeFlow && s.RuntimeInvocationErrorResponseState.(*RuntimeInvocationErrorResponseState).invokeFlow == s.RuntimeRunningState.(*RuntimeRunningState).invokeFlow && s.RuntimeResponseSentState.(*RuntimeResponseSentState).invokeFlow == s.RuntimeRunningState.(*RuntimeRunningState).invokeFlow
+//@ spec isInitFlow(f InitFlowSynchronization) bool = typeis(f, *initFlowSynchronizationImpl) && ref(f) != 0 && initFlowWired(f.(*initFlowSynchronizationImpl))
+//@ spec isInvokeFlow(f InvokeFlowSynchronization) bool = typeis(f, *invokeFlowSynchronizationImpl) && ref(f) != 0 && invokeFlowWired(f.(*invokeFlowSynchronizationImpl))
+//@ spec rtInitFlow(s *Runtime) *initFlowSynchronizationImpl = s.RuntimeStartedState.(*RuntimeStartedState).initFlow.(*initFlowSynchronizationImpl)
+//@ spec rtInvokeFlow(s *Runtime) *invokeFlowSynchronizationImpl = s.RuntimeRunningState.(*RuntimeRunningState).invokeFlow.(*invokeFlowSynchronizationImpl)
+
+//@ typeinv Runtime s
+//@   inv rtWired(s)
+//@   inv rtFlows(s)
+//@ typeinv RuntimeStartedState s
+//@   inv s.runtime != nil && rtWired(s.runtime) && rtFlows(s.runtime) && s.runtime.RuntimeStartedState == iface(s)
+//@ typeinv RuntimeRestoringState s
+//@   inv s.runtime != nil && rtWired(s.runtime) && rtFlows(s.runtime) && s.runtime.RuntimeRestoringState == iface(s)
+//@ typeinv RuntimeReadyState s
+//@   inv s.runtime != nil && rtWired(s.runtime) && rtFlows(s.runtime) && s.runtime.RuntimeReadyState == iface(s)
+//@ typeinv RuntimeRunningState s
+//@   inv s.runtime != nil && rtWired(s.runtime) && rtFlows(s.runtime) && s.runtime.RuntimeRunningState == iface(s)
+//@ typeinv RuntimeInvocationResponseState s
+//@   inv s.runtime != nil && rtWired(s.runtime) && rtFlows(s.runtime) && s.runtime.RuntimeInvocationResponseState == iface(s)
+//@ typeinv RuntimeInvocationErrorResponseState s
+//@   inv s.runtime != nil && rtWired(s.runtime) && rtFlows(s.runtime) && s.runtime.RuntimeInvocationErrorResponseState == iface(s)
+//@ typeinv RuntimeResponseSentState s
+//@   inv s.runtime != nil && rtWired(s.runtime) && rtFlows(s.runtime) && s.runtime.RuntimeResponseSentState == iface(s)
+
+// every transition a state does not override is refused, and a refusal writes nothing and calls nothing
+//@ func (*disallowEveryTransitionByDefault).InitError
+//@   modifies nothing
+//@   ensures [refused] r0 == ErrNotAllowed
+//@ func (*disallowEveryTransitionByDefault).Ready
+//@   modifies nothing
+//@   ensures [refused] r0 == ErrNotAllowed
+//@ func (*disallowEveryTransitionByDefault).RestoreReady
+//@   modifies nothing
+//@   ensures [refused] r0 == ErrNotAllowed
+//@ func (*disallowEveryTransitionByDefault).InvocationResponse
+//@   modifies nothing
+//@   ensures [refused] r0 == ErrNotAllowed
+//@ func (*disallowEveryTransitionByDefault).InvocationErrorResponse
+//@   modifies nothing
+//@   ensures [refused] r0 == ErrNotAllowed
+//@ func (*disallowEveryTransitionByDefault).ResponseSent
+//@   modifies nothing
+//@   ensures [refused] r0 == ErrNotAllowed
+//@ func (*disallowEveryTransitionByDefault).RestoreError
+//@   modifies nothing
+//@   ensures [refused] r0 == ErrNotAllowed
+
+//@ func (*Runtime).setStateUnsafe
+//@   requires held(s)
+//@   modifies s.currentState, s.stateLastModified
+//@   ensures [set] s.currentState == state
+
+//@ func (*ManagedThread).SuspendUnsafe
+//@   modifies s.operatorConditionValue
+//@ func (*ManagedThread).Release
+//@   modifies s.operatorConditionValue
+
+// --- legal rows of the table (written from the property; every other (state, call) pair is refused) ---
+
+//@ func (*RuntimeStartedState).InitError
+//@   requires held(s.runtime) && rtValid(s.runtime)
+//@   ensures [state-stays-valid] rtValid(s.runtime)
+//@   modifies s.runtime.currentState, s.runtime.stateLastModified
+//@   ensures [to-init-error] r0 == nil && s.runtime.currentState == s.runtime.RuntimeInitErrorState
+
+//@ func (*RuntimeStartedState).Ready
+//@   requires held(s.runtime) && rtValid(s.runtime)
+//@   ensures [state-stays-valid] rtValid(s.runtime)
+//@   modifies s.runtime.currentState, s.runtime.stateLastModified, s.runtime.responseTime, all(gateImpl.arrived)
+//@   ensures [parks-then-runs] r0 == nil ==> s.runtime.currentState == s.runtime.RuntimeRunningState
+//@   ensures [arrives-init-gates] r0 == nil ==> gateOf(rtInitFlow(s.runtime).runtimeReadyGate).arrived == old(gateOf(rtInitFlow(s.runtime).runtimeReadyGate).arrived) + 1 && gateOf(rtInitFlow(s.runtime).runtimeRestoreReadyGate).arrived == old(gateOf(rtInitFlow(s.runtime).runtimeRestoreReadyGate).arrived) + 1
+//@   ensures [holds-lock] held(s.runtime)
+
+//@ func (*RuntimeStartedState).RestoreReady
+//@   requires held(s.runtime) && rtValid(s.runtime)
+//@   ensures [state-stays-valid] rtValid(s.runtime)
+//@   modifies s.runtime.currentState, s.runtime.stateLastModified, s.runtime.responseTime, all(gateImpl.arrived)
+//@   ensures [parks-then-restoring] r0 == nil ==> s.runtime.currentState == s.runtime.RuntimeRestoringState
+//@   ensures [arrives-restore-gate] r0 == nil ==> gateOf(rtInitFlow(s.runtime).runtimeRestoreReadyGate).arrived == old(gateOf(rtInitFlow(s.runtime).runtimeRestoreReadyGate).arrived) + 1 && unchanged(gateOf(rtInitFlow(s.runtime).runtimeReadyGate).arrived)
+//@   ensures [holds-lock] held(s.runtime)
+
+//@ func (*RuntimeRestoringState).Ready
+//@   requires held(s.runtime) && rtValid(s.runtime)
+//@   ensures [state-stays-valid] rtValid(s.runtime)
+//@   modifies s.runtime.currentState, s.runtime.stateLastModified, s.runtime.responseTime, all(gateImpl.arrived)
+//@   ensures [parks-then-runs] r0 == nil ==> s.runtime.currentState == s.runtime.RuntimeRunningState
+//@   ensures [arrives-ready-gate] r0 == nil ==> gateOf(rtInitFlow(s.runtime).runtimeReadyGate).arrived == old(gateOf(rtInitFlow(s.runtime).runtimeReadyGate).arrived) + 1 && unchanged(gateOf(rtInitFlow(s.runtime).runtimeRestoreReadyGate).arrived)
+//@   ensures [holds-lock] held(s.runtime)
+
+//@ func (*RuntimeRestoringState).RestoreError
+//@   requires held(s.runtime) && rtValid(s.runtime)
+//@   ensures [state-stays-valid] rtValid(s.runtime)
+//@   modifies s.runtime.currentState, s.runtime.stateLastModified, all(gateImpl.canceled), all(gateImpl.err)
+//@   ensures [to-restore-error] r0 == nil && s.runtime.currentState == s.runtime.RuntimeRestoreErrorState
+//@   ensures [cancels-init-flow] gateOf(rtInitFlow(s.runtime).runtimeReadyGate).canceled && gateOf(rtInitFlow(s.runtime).agentReadyGate).canceled && typeis(gateOf(rtInitFlow(s.runtime).runtimeReadyGate).err, interop.ErrRestoreHookUserError)
+
+//@ func (*RuntimeReadyState).Ready
+//@   requires held(s.runtime) && rtValid(s.runtime)
+//@   ensures [state-stays-valid] rtValid(s.runtime)
+//@   modifies s.runtime.currentState, s.runtime.stateLastModified, s.runtime.responseTime
+//@   ensures [parks-then-runs] r0 == nil ==> s.runtime.currentState == s.runtime.RuntimeRunningState
+//@   ensures [holds-lock] held(s.runtime)
+
+//@ func (*RuntimeRunningState).Ready
+//@   modifies nothing
+//@   ensures [same-invocation] r0 == nil
+//@ func (*RuntimeRunningState).InvocationResponse
+//@   requires held(s.runtime) && rtValid(s.runtime)
+//@   ensures [state-stays-valid] rtValid(s.runtime)
+//@   modifies s.runtime.currentState, s.runtime.stateLastModified
+//@   ensures [to-response] r0 == nil && s.runtime.currentState == s.runtime.RuntimeInvocationResponseState
+//@ func (*RuntimeRunningState).InvocationErrorResponse
+//@   requires held(s.runtime) && rtValid(s.runtime)
+//@   ensures [state-stays-valid] rtValid(s.runtime)
+//@   modifies s.runtime.currentState, s.runtime.stateLastModified
+//@   ensures [to-error-response] r0 == nil && s.runtime.currentState == s.runtime.RuntimeInvocationErrorResponseState
+
+//@ func (*RuntimeInvocationResponseState).ResponseSent
+//@   requires held(s.runtime) && rtValid(s.runtime)
+//@   ensures [state-stays-valid] rtValid(s.runtime)
+//@   modifies s.runtime.currentState, s.runtime.stateLastModified, rtInvokeFlow(s.runtime).runtimeResponseGate.(*gateImpl).arrived
+//@   ensures [to-sent] s.runtime.currentState == s.runtime.RuntimeResponseSentState
+//@   ensures [arrives-response-gate] walkSpec(gateOf(rtInvokeFlow(s.runtime).runtimeResponseGate), r0)
+//@ func (*RuntimeInvocationErrorResponseState).ResponseSent
+//@   requires held(s.runtime) && rtValid(s.runtime)
+//@   ensures [state-stays-valid] rtValid(s.runtime)
+//@   modifies s.runtime.currentState, s.runtime.stateLastModified, rtInvokeFlow(s.runtime).runtimeResponseGate.(*gateImpl).arrived
+//@   ensures [to-sent] s.runtime.currentState == s.runtime.RuntimeResponseSentState
+//@   ensures [arrives-response-gate] walkSpec(gateOf(rtInvokeFlow(s.runtime).runtimeResponseGate), r0)
+
+//@ func (*RuntimeResponseSentState).Ready
+//@   requires held(s.runtime) && rtValid(s.runtime)
+//@   ensures [state-stays-valid] rtValid(s.runtime)
+//@   modifies s.runtime.currentState, s.runtime.stateLastModified, s.runtime.responseTime, rtInvokeFlow(s.runtime).runtimeReadyGate.(*gateImpl).arrived
+//@   ensures [parks-then-runs] r0 == nil ==> s.runtime.currentState == s.runtime.RuntimeRunningState
+//@   ensures [arrives-ready-gate] r0 == nil ==> gateOf(rtInvokeFlow(s.runtime).runtimeReadyGate).arrived == old(gateOf(rtInvokeFlow(s.runtime).runtimeReadyGate).arrived) + 1
+//@   ensures [holds-lock] held(s.runtime)
+
+// --- the Runtime object: each call equals the table row of the current state (dispatch under the type invariant) ---
+
+//@ spec rtRefused(s *Runtime, r error) bool = r == ErrNotAllowed && unchanged(s.currentState, s.stateLastModified, s.responseTime)
+//@ spec rtGatesUntouched(s *Runtime) bool = unchanged(gateOf(rtInitFlow(s).runtimeReadyGate).arrived, gateOf(rtInitFlow(s).runtimeRestoreReadyGate).arrived, gateOf(rtInitFlow(s).agentReadyGate).arrived, gateOf(rtInitFlow(s).externalAgentsRegisteredGate).arrived, gateOf(rtInvokeFlow(s).runtimeReadyGate).arrived, gateOf(rtInvokeFlow(s).runtimeResponseGate).arrived, gateOf(rtInvokeFlow(s).agentReadyGate).arrived, gateOf(rtInitFlow(s).runtimeReadyGate).canceled, gateOf(rtInitFlow(s).agentReadyGate).canceled)
+
+//@ func (*Runtime).SetState
+//@   requires state == s.RuntimeStartedState || state == s.RuntimeInitErrorState || state == s.RuntimeReadyState || state == s.RuntimeRunningState || state == s.RuntimeRestoreReadyState || state == s.RuntimeRestoringState || state == s.RuntimeInvocationResponseState || state == s.RuntimeInvocationErrorResponseState || state == s.RuntimeResponseSentState || state == s.RuntimeRestoreErrorState
+//@   modifies s.currentState, s.stateLastModified
+//@   ensures [set] s.currentState == state
+
+//@ func (*Runtime).GetState
+//@   modifies nothing
+//@   ensures [current] r0 == s.currentState && rtValid(s)
+
+//@ func (*Runtime).InitError
+//@   modifies s.currentState, s.stateLastModified
+//@   ensures [legal-from-started] old(s.currentState) == s.RuntimeStartedState ==> r0 == nil && s.currentState == s.RuntimeInitErrorState
+//@   ensures [refused-otherwise] old(s.currentState) != s.RuntimeStartedState ==> rtRefused(s, r0)
+
+//@ func (*Runtime).InvocationResponse
+//@   modifies s.currentState, s.stateLastModified
+//@   ensures [legal-from-running] old(s.currentState) == s.RuntimeRunningState ==> r0 == nil && s.currentState == s.RuntimeInvocationResponseState
+//@   ensures [refused-otherwise] old(s.currentState) != s.RuntimeRunningState ==> rtRefused(s, r0)
+
+//@ func (*Runtime).InvocationErrorResponse
+//@   modifies s.currentState, s.stateLastModified
+//@   ensures [legal-from-running] old(s.currentState) == s.RuntimeRunningState ==> r0 == nil && s.currentState == s.RuntimeInvocationErrorResponseState
+//@   ensures [refused-otherwise] old(s.currentState) != s.RuntimeRunningState ==> rtRefused(s, r0)
+
+//@ func (*Runtime).ResponseSent
+//@   modifies s.currentState, s.stateLastModified, s.responseTime, rtInvokeFlow(s).runtimeResponseGate.(*gateImpl).arrived
+//@   ensures [legal-after-response] old(s.currentState) == s.RuntimeInvocationResponseState || old(s.currentState) == s.RuntimeInvocationErrorResponseState ==> s.currentState == s.RuntimeResponseSentState && walkSpec(gateOf(rtInvokeFlow(s).runtimeResponseGate), r0)
+//@   ensures [refused-otherwise] old(s.currentState) != s.RuntimeInvocationResponseState && old(s.currentState) != s.RuntimeInvocationErrorResponseState ==> rtRefused(s, r0) && unchanged(gateOf(rtInvokeFlow(s).runtimeResponseGate).arrived)
+
+//@ func (*Runtime).RestoreError
+//@   modifies s.currentState, s.stateLastModified, all(gateImpl.canceled), all(gateImpl.err)
+//@   ensures [legal-from-restoring] old(s.currentState) == s.RuntimeRestoringState ==> r0 == nil && s.currentState == s.RuntimeRestoreErrorState && gateOf(rtInitFlow(s).runtimeReadyGate).canceled
+//@   ensures [refused-otherwise] old(s.currentState) != s.RuntimeRestoringState ==> rtRefused(s, r0) && unchanged(gateOf(rtInitFlow(s).runtimeReadyGate).canceled, gateOf(rtInitFlow(s).agentReadyGate).canceled, gateOf(rtInitFlow(s).runtimeRestoreReadyGate).canceled, gateOf(rtInitFlow(s).externalAgentsRegisteredGate).canceled)
+
+//@ func (*Runtime).RestoreReady
+//@   modifies s.currentState, s.stateLastModified, s.responseTime, all(gateImpl.arrived)
+//@   ensures [legal-from-started] old(s.currentState) == s.RuntimeStartedState && r0 == nil ==> s.currentState == s.RuntimeRestoringState
+//@   ensures [refused-otherwise] old(s.currentState) != s.RuntimeStartedState ==> rtRefused(s, r0) && rtGatesUntouched(s)
+
+//@ func (*Runtime).Ready
+//@   modifies s.currentState, s.stateLastModified, s.responseTime, all(gateImpl.arrived)
+//@   ensures [next-returns-running] r0 == nil ==> s.currentState == s.RuntimeRunningState
+//@   ensures [repeat-is-noop] old(s.currentState) == s.RuntimeRunningState ==> r0 == nil && unchanged(s.currentState, s.stateLastModified, s.responseTime) && rtGatesUntouched(s)
+//@   ensures [refused] old(s.currentState) == s.RuntimeInitErrorState || old(s.currentState) == s.RuntimeRestoreReadyState || old(s.currentState) == s.RuntimeRestoreErrorState || old(s.currentState) == s.RuntimeInvocationResponseState || old(s.currentState) == s.RuntimeInvocationErrorResponseState ==> rtRefused(s, r0) && rtGatesUntouched(s)
+//@   ensures [parked-arrives-nowhere] old(s.currentState) == s.RuntimeReadyState ==> rtGatesUntouched(s)
+
+//@ func NewRuntime
+//@   requires isInitFlow(initFlow) && isInvokeFlow(invokeFlow)
+//@   modifies nothing
+//@   ensures [fresh] r0 != nil && fresh(r0)
+//@   ensures [starts-in-started] r0.currentState == r0.RuntimeStartedState
+//@   ensures [wired] rtWired(r0) && rtFlows(r0) && rtInitFlow(r0) == initFlow.(*initFlowSynchronizationImpl) && rtInvokeFlow(r0) == invokeFlow.(*invokeFlowSynchronizationImpl)
+
+//@ func NewManagedThread
+//@   modifies nothing
+//@   ensures r0 != nil && fresh(r0)
